@@ -212,6 +212,10 @@ class PPRule:
         return ir
 
 
+# Source text that must not be touched by the macro replacement rules:
+# character literals (with doubled delimiters) and comments
+_skip_pattern = r'\'(?:\'\'|[^\'])*\'|"(?:""|[^"])*"|!.*$'
+
 sanitize_registry = {
     REGEX: {
         # Strip line annotations from Fypp preprocessor
@@ -220,19 +224,23 @@ sanitize_registry = {
     OMNI: {},
     FP: {
         # Remove various IBM directives
-        'IBM_DIRECTIVES': PPRule(match=re.compile(r'(@PROCESS.*\n)'), replace='\n'),
+        'IBM_DIRECTIVES': PPRule(match=re.compile(r'(^\s*@PROCESS.*\n)'), replace='\n'),
 
         # Enquote string CPP directives in Fortran source lines to make them string constants
         # Note: this is a bit tricky as we need to make sure that we don't replace it inside CPP
         #       directives as this can produce invalid code
+        # Note: string literals, comments and identifiers that merely contain the macro name are skipped
         'STRING_PP_DIRECTIVES': PPRule(
             match=re.compile((
                 r'(?P<pp>^\s*#.*__(?:FILE|FILENAME|DATE|VERSION)__)|'  # Match inside a directive
-                r'(?P<else>__(?:FILE|FILENAME|DATE|VERSION)__)')),     # Match elsewhere
-            replace=lambda m: m['pp'] or f'"{m["else"]}"'),
+                rf'(?P<skip>{_skip_pattern})|'                         # Skip string literals and comments
+                r'(?P<else>(?<!\w)__(?:FILE|FILENAME|DATE|VERSION)__(?!\w))')),     # Match elsewhere
+            replace=lambda m: m['pp'] or m['skip'] or f'"{m["else"]}"'),
 
         # Replace integer CPP directives by 0
-        'INTEGER_PP_DIRECTIVES': PPRule(match='__LINE__', replace='0'),
+        'INTEGER_PP_DIRECTIVES': PPRule(
+            match=re.compile(rf'(?P<skip>{_skip_pattern})|(?P<else>(?<!\w)__LINE__(?!\w))'),
+            replace=lambda m: m['skip'] or '0'),
 
         # Replace CONVERT argument in OPEN calls
         'CONVERT_ENDIAN': PPRule(
@@ -243,7 +251,8 @@ sanitize_registry = {
 
         # Replace NEWUNIT argument in OPEN calls
         'OPEN_NEWUNIT': PPRule(
-            match=re.compile((r'(?P<ws>^\s*)(?P<open>OPEN\s*\()(?P<args1>.*?)(?P<delim>,)?'
+            match=re.compile((r'(?P<ws>^\s*)(?P<open>OPEN\s*\()'
+                              r'(?P<args1>(?:[^\'"]|\'[^\']*\'|"[^"]*")*?)(?P<delim>,)?'
                               r'(?P<newunit_key>,?\s*NEWUNIT=)(?P<newunit_val>.*?(?=,|\)|&))'
                               r'(?P<args2>.*?$)'), re.I),
             replace=lambda m: f'{m["ws"]}{m["open"]}{m["newunit_val"]}{m["delim"] or ""}' +
